@@ -1042,6 +1042,14 @@ func init() {
 			}
 			i.fsMutate(fr, op, a[0])
 			r.node.uid, r.node.gid = a[1], a[2]
+			// chown(2) clears the set-uid bit of a non-directory, and its set-gid bit when the
+			// file is group-executable (Linux does so for every caller, also when nothing changes)
+			if r.node.kind == nkFile {
+				r.node.mode &^= modeSetuid
+				if r.node.mode&0010 != 0 {
+					r.node.mode &^= modeSetgid
+				}
+			}
 			return iface{}
 		}
 	}
